@@ -144,7 +144,11 @@ def stepFile (toks : List String) : String :=
         let (second, fix) := match Grammar.parseFile text with
           | some d' =>
             -- the second print: the printer model on what the grammar model read
-            (Wire.encFile2 d', if d'.determined then (if Layout.printText gen d' == text then "same" else "differs") else "na")
+            (Wire.encFile2 d',
+              if d'.determined then
+                (let text2 := Layout.printText gen d'
+                 if text2 == text then "same" else "differs:" ++ toHexW (Wire.strToBytes text2))
+              else "na")
           | none => ("unread", "na")
         toHexW (Wire.strToBytes text) ++ " " ++ second ++ " second-print=" ++ fix
 
